@@ -260,7 +260,21 @@ class Pair:
         co = self.c.ask("\n".join(lines) + "\nend")
         ho = self.h.ask("model 0 ; " + G.one_line(lines), timeout=900)
         if co is None or ho is None:
-            raise common.Infra("engine process died while loading a model")
+            who = ("C engine harness" if co is None else "") + (" MJX harness" if ho is None else "")
+            dump = os.path.join(common.VERIF, "replays", "C43_died_on_load.txt")
+            try:
+                os.makedirs(os.path.dirname(dump), exist_ok=True)
+                open(dump, "w").write("\n".join(lines) + "\n")
+            except OSError:
+                pass
+            diag = ""
+            try:
+                hp = self.h
+                hp.errf.flush(); hp.errf.seek(0)
+                diag = " rc=%s stderr tail: %s" % (hp.p.poll(), hp.errf.read()[-1500:].replace("\n", " | "))
+            except Exception as e:
+                diag = " (no stderr: %s)" % e
+            raise common.Infra("engine process died while loading a model (%s); model written to %s;%s" % (who.strip(), dump, diag))
         self.c_ok = co.startswith("ok")
         if self.c_ok:
             self.c.ask("data 0")
